@@ -583,7 +583,12 @@ TSnap ==
               IN IF Line.why = "final" THEN [b EXCEPT !.finals = @ + 1] ELSE b
   /\ verdict' =
        LET after == lastk \in NoEffectKinds /\ Line.why = "c" IN
-       IF Line.hookpanic # "" THEN "NC:state-hook-panicked"
+       \* No request executes inside the server when a snapshot is taken (the
+       \* requests in flight are parked inside a leaf or wait for the request
+       \* they repeat, without any server lock): a lock that cannot be taken
+       \* was left held by a request that returned.  The line has no state.
+       IF Line.lockleak THEN "C14:server-lock-left-held-after-a-request-returned"
+       ELSE IF Line.hookpanic # "" THEN "NC:state-hook-panicked"
        ELSE IF Line.why = "final" /\ Retained THEN "C18:state-retained-after-all-leases-expired"
        ELSE IF LeafVerdict \notin {"ok", LeafNC} THEN LeafVerdict
        ELSE IF ~ObsExclusion THEN "C20:two-owners-hold-conflicting-locks"
